@@ -16,7 +16,7 @@ m = {
            "source_commits": [], "add_only": True},
  "engines": [
   {"name": "pyvc", "path": "pyvc/", "serves_properties": [p for p in ALL if p in CONFIG and CONFIG[p].get("proof")],
-   "kind_free_text": "contract-based deductive verifier for a Python subset: symbolic execution of the real AST of /repo (re-read every run), sidecar contracts and loop invariants, VCs discharged by z3 5.1 / cvc5"},
+   "kind_free_text": "contract-based deductive verifier for a Python subset: symbolic execution of the real AST of /repo (re-read every run), sidecar contracts and loop invariants, VCs discharged by z3 5.1 / cvc5; two lemma files checked by Lean 4 / Mathlib (C12, C14)"},
   {"name": "rtc", "path": "rtc/", "serves_properties": [p for p in ALL if p in CONFIG and CONFIG[p].get("rtc")],
    "kind_free_text": "bounded stand-in + replay harness: run-time contracts and independent oracles evaluated on the real functions over a stated bound (never counted as proved)"}],
  "checks": [], "not_applicable": [],
@@ -31,7 +31,7 @@ for p in ALL:
             "engine": "pyvc+rtc" if c.get("proof") and c.get("rtc") else ("pyvc" if c.get("proof") else "rtc"),
             "level_claimed": {"category": c["level"], "text": c["explanation"], "design_ref": f"6/{p}"},
             "level_note": "; ".join(c.get("trusted_base", []) + c.get("assumptions", [])) or "see evidence assumptions",
-            "technique": c.get("technique", TECH[bool(c.get("proof"))])})
+            "technique": c.get("technique", TECH[bool(c.get("proof"))] + (" + Lean 4 / Mathlib lemmas (" + ", ".join(c["lean"]) + ")" if c.get("lean") else ""))})
     else:
         m["not_applicable"].append({"property_id": p, "reason": NOT_APPLICABLE.get(p, "check under construction; not claimed yet")})
 json.dump(m, open(os.path.join(HERE, "MANIFEST.json"), "w"), indent=1)
